@@ -36,9 +36,21 @@ def install_patches():
             def wrapped(x, *a, _orig=orig, **k):
                 if isinstance(x, np.ndarray) and x.dtype == object or isinstance(x, (Lin, Sym)):
                     return x
+                like = a[0] if a else k.get("like", k.get("tensor2"))
+                if isinstance(like, (Lin, Sym)) or (isinstance(like, np.ndarray) and like.dtype == object):
+                    return x
                 return _orig(x, *a, **k)
             wrapped._qsym = True
             setattr(mod, fn, wrapped)
+    # bare ring elements reaching autoray-dispatched functions (backend name = module name 'qsym')
+    try:
+        import autoray
+        for fn, impl in (("sqrt", lambda x: x.sqrt()), ("cos", lambda x: x.cos()), ("sin", lambda x: x.sin()), ("exp", lambda x: x.exp()),
+                         ("conj", lambda x: x.conjugate()), ("real", lambda x: x.real), ("imag", lambda x: x.imag), ("abs", lambda x: abs(x)),
+                         ("shape", lambda x: ()), ("ndim", lambda x: 0), ("to_numpy", lambda x: x), ("asarray", lambda x, *a, **k: x)):
+            autoray.register_function("qsym", fn, impl)
+    except Exception:
+        pass
     _PATCHED = True
 
 
